@@ -100,6 +100,8 @@ def mk(op, a, b):
     if op in '*/' and isc(b, 1): return a
     if op == '/' and isc(a, 0): return lift(0)          # definedness (b != 0) is tracked by the executor
     if op == '-' and a is b: return lift(0)
+    if op == '*' and a.op == 'exp' and b.op == 'exp': return exp(a.a[0] + b.a[0])     # exp(u)exp(v) = exp(u+v)
+    if op == '/' and a.op == 'exp' and b.op == 'exp': return exp(a.a[0] - b.a[0])
     return _intern(T, op, (a, b))
 
 
